@@ -199,6 +199,20 @@ def explore(ctx):
             run_case(ctx, case, fonts, ds, lambda: list(ufo2ft.compileInterpolatableTTFs(fonts, **opts)))
         else:
             run_case(ctx, case, fonts, ds, lambda: getattr(ufo2ft, fn)(ds, **opts))
+    # ---------------- source locations that leave out the axes on which the source sits at the default
+    for i in range(ctx.budget(6, 24)):
+        lib = ["ufoLib2", "defcon"][i % 2]
+        fn = ["compileInterpolatableTTFsFromDS", "compileInterpolatableOTFsFromDS", "compileVariableTTF", "compileVariableCFF2",
+              "compileVariableTTFs", "compileVariableCFF2s"][i % 6]
+        base = dsgen.base_master(rng)
+        masters = [base] + [dsgen.perturb(rng, base, k) for k in (1, 2)]
+        locs = [[{}, {"Weight": 900}, {"Width": 200}], [{"Weight": 100}, {"Weight": 900}, {"Width": 200, "Weight": 100}]][(i // 6) % 2]
+        ds, fonts = dsgen.make_designspace(rng, masters, lib, locations=locs, instances=False,
+                                           axes=[("Weight", "wght", 100, 100, 900), ("Width", "wdth", 100, 100, 200)])
+        opts = {"inplace": False} if "Interpolatable" in fn and i % 12 >= 6 else {}
+        case = {"function": fn, "options": jsonable(opts), "lib": lib, "masters": 3, "source_locations": locs, "font": jsonable(base)}
+        ctx.klass("family:" + fn + "+partial source locations")
+        run_case(ctx, case, fonts, ds, lambda: getattr(ufo2ft, fn)(ds, **opts))
     # ---------------- fixtures
     fixtures = [("TestFont.ufo", {}), ("TestMathFont-Regular.ufo", {}), ("ColorTest.ufo", {}), ("DottedCircleTest.ufo", {}),
                 ("ContourOrderTest.ufo", {}), ("CantarellAnchorPropagation.ufo", {}), ("UseMyMetrics.ufo", {}),
